@@ -193,6 +193,7 @@ class Sweeps:
         cases = ["(Build_sweep " + g_body(nest) + " " + g_list(g_run(lim, sizes) for lim, sizes, _, _ in runs) + ")"
                  for nest, _, runs in groups]
         expected = [g_list(g_dobs_c(obs) for _, _, obs, _ in runs) for _, _, runs in groups]
+        chunk = max(chunk, -(-len(groups) // 32))  # at most ~32 shards: loading the libraries costs as much as hundreds of runs
         mm = ck.coq_mismatches(name, IMPORTS, "run_sweep", "list_eqb dobs_eqb", "sweep", "list dobs", cases, expected, chunk=chunk)
         nruns = sum(len(g[2]) for g in groups)
         ck.model_cases += nruns - len(groups)
@@ -377,8 +378,13 @@ _WEIGHTS = (("text", 26), ("echo", 9), ("assign", 8), ("capture", 9), ("ifchange
             ("include", 6), ("includearr", 5), ("render", 6), ("renderfor", 4), ("call", 5))
 
 
-def rand_text(rng, lo=1, hi=4):
-    return "".join(rng.choice(ALPHABET) for _ in range(rng.randrange(lo, hi + 1)))
+def rand_text(rng, lo=1, hi=4, cr=True):
+    """Never whitespace-only; sometimes with a carriage return / CRLF in the middle (a limited buffer must not
+    translate them)."""
+    t = "".join(rng.choice(ALPHABET) for _ in range(rng.randrange(lo, hi + 1)))
+    if cr and t and rng.random() < 0.12:
+        t += rng.choice(("\r\n", "\r")) + rng.choice(ALPHABET)
+    return t
 
 
 def gen_tree(rng, maxdepth=3, lengths=(0, 1, 2, 3), depth=0, no_include=False, width=3, nvars=3):
@@ -396,7 +402,7 @@ def gen_tree(rng, maxdepth=3, lengths=(0, 1, 2, 3), depth=0, no_include=False, w
         elif k == "echo":
             out.append(("echo", rng.randrange(nvars)))
         elif k == "assign":
-            out.append(("assign", rng.randrange(nvars), rand_text(rng, 0, 6)))
+            out.append(("assign", rng.randrange(nvars), rand_text(rng, 0, 6, cr=False)))
         elif k == "capture":
             out.append(("capture", rng.randrange(nvars), sub()))
         elif k == "ifchanged":
